@@ -4,6 +4,7 @@ import (
 	"bytes"
 	"encoding/json"
 	"fmt"
+	"github.com/dcaiafa/lox/verif/internal/root"
 	gotoken "go/token"
 	"math"
 	"os"
@@ -400,7 +401,7 @@ func realSpecs() ([]realSpec, []string) {
 	var out []realSpec
 	var problems []string
 	for _, d := range []string{"internal/parser", "examples/calc", "examples/jsonc", "examples/bolox"} {
-		m, _ := filepath.Glob("/repo/" + d + "/*.lox")
+		m, _ := filepath.Glob(root.RepoPath(d) + "/*.lox")
 		sort.Strings(m)
 		files := map[string]string{}
 		var units []*loxast.Unit
